@@ -3,7 +3,7 @@
    Model/C07_mro.v: c3linear_merge, Class._mro/mro, inherited_members, all_members (Griffe) and
    pmerge, mro_implementation, lookup through tp_mro (CPython, `object` elided). *)
 From Coq Require Import List ZArith String Bool Arith.
-From Verif Require Import Lib.Sexp Model.C07_mro Proofs.C07_mro.
+From Verif Require Import Lib.Sexp Model.C07_mro Proofs.C07_mro Model.C07_bases Proofs.C07_bases Proofs.C07_hidden.
 Import ListNotations.
 Open Scope string_scope. Open Scope list_scope. Open Scope nat_scope.
 
@@ -102,3 +102,127 @@ Print Assumptions C07_inherited_paths.
 Theorem C07_uncomputable_no_inherited : forall t c e, griffe_mro t c = Fail e -> inherited_members t c = [].
 Proof. exact inherited_uncomputable_empty. Qed.
 Print Assumptions C07_uncomputable_no_inherited.
+
+(* ================================================================================================
+   From the bases as written to Class.resolved_bases (Model/C07_bases.v): Expr.canonical_path through
+   Object.resolve, the walk of ModulesCollection.get_member through aliases, Alias.final_target with its cycle
+   guards, the except-and-drop of resolved_bases and the is_class filter of _mro -- against the Python reading
+   of the same expressions (an assigned name denotes its value).
+   ================================================================================================ *)
+
+(* Resolution always returns: alias chains and cycles, dangling targets, any heap, any expression. *)
+Theorem C07_resolve_total : forall follow h scope e, resolve_base follow h scope e <> RFuel.
+Proof. exact resolve_base_total. Qed.
+Print Assumptions C07_resolve_total.
+
+(* `A[int]`, `Generic[T]`: a subscripted base resolves as its left part. *)
+Theorem C07_resolve_subscript_transparent : forall follow h scope e,
+  resolve_base follow h scope (BSub e) = resolve_base follow h scope e.
+Proof. exact resolve_subscript. Qed.
+Print Assumptions C07_resolve_subscript_transparent.
+
+(* What resolved_bases holds is an object of the collection, never an alias (final_target went all the way). *)
+Theorem C07_resolve_result_is_object : forall follow h scope e q k, resolve_base follow h scope e = Found q k ->
+  find_obj h q = Some k /\ (forall t, k <> KAlias t).
+Proof. exact resolve_base_found. Qed.
+Print Assumptions C07_resolve_result_is_object.
+
+(* Soundness: whatever Griffe resolves a base to -- unless it stops at an assigned name -- is what the expression
+   denotes in Python, through any chain of import aliases, re-exports, module aliases and holder classes. *)
+Theorem C07_resolved_base_sound : forall h scope e q k, attr_leaf h ->
+  resolve_base false h scope e = Found q k -> not_attr k -> resolve_base true h scope e = Found q k.
+Proof. exact resolve_base_sound. Qed.
+Print Assumptions C07_resolved_base_sound.
+
+(* resolved_bases + is_class filter, any list of bases: Griffe's bases are a subsequence of Python's (same order,
+   nothing invented) ... *)
+Theorem C07_resolved_bases_subseq : forall h scope es bs, attr_leaf h -> map_opt (pbase h scope) es = Some bs ->
+  Subseq (gbases h scope es) bs.
+Proof. exact gbases_subseq. Qed.
+Print Assumptions C07_resolved_bases_subseq.
+
+(* ... and exactly Python's bases when every base expression resolves to a class. *)
+Theorem C07_resolved_bases_complete : forall h scope es, attr_leaf h -> forallb (kept h scope) es = true ->
+  map_opt (pbase h scope) es = Some (gbases h scope es).
+Proof. exact gbases_complete. Qed.
+Print Assumptions C07_resolved_bases_complete.
+
+(* Finding C07-F2: `Base = K1; class C(Base)` -- the base is dropped. *)
+Theorem C07_resolve_assign_refuted : exists h scope e, attr_leaf h /\
+  gbases h scope [e] = [] /\ pbases h scope [e] = Some [0] /\ stops_at_attr h scope e = true.
+Proof. exact resolve_assign_refuted. Qed.
+Print Assumptions C07_resolve_assign_refuted.
+
+(* Modulo that gap the two readings of one collection agree on every base Griffe finds at all. *)
+Theorem C07_resolve_complete_modulo_assign : forall h scope e i, attr_leaf h ->
+  pbase h scope e = Some i -> stops_at_attr h scope e = false ->
+  (exists q k, resolve_base false h scope e = Found q k) ->
+  exists q, resolve_base false h scope e = Found q (KCls i).
+Proof. exact resolve_complete_modulo_assign. Qed.
+Print Assumptions C07_resolve_complete_modulo_assign.
+
+(* ================================================================================================
+   Bases the collection does not hold (typing.Generic, object, unloaded packages) are dropped before the merge.
+   ================================================================================================ *)
+
+(* Erasing a class that is last wherever it occurs commutes with the C3 merge, failures included. *)
+Theorem C07_merge_last_only_elision : forall x ls, lo_all x ls ->
+  c3linear_merge (dropl x ls) = map_ok (drop x) (c3linear_merge ls).
+Proof. exact last_only_elision. Qed.
+Print Assumptions C07_merge_last_only_elision.
+
+(* The hypothesis is needed. *)
+Theorem C07_merge_last_only_needed : exists x ls r r',
+  c3linear_merge ls = Ok r /\ c3linear_merge (dropl x ls) = Ok r' /\ r' <> drop x r.
+Proof. exact last_only_needed. Qed.
+Print Assumptions C07_merge_last_only_needed.
+
+(* Empty linearisations are neutral for the merge. *)
+Theorem C07_merge_nil_neutral : forall ls, c3linear_merge (nonnil ls) = c3linear_merge ls.
+Proof. exact merge_nil_neutral. Qed.
+Print Assumptions C07_merge_nil_neutral.
+
+(* Finding C07-F1: P(A, Generic), Q(Generic), S(P, B), Z(S, Q) with Generic not loaded -- every bases list has the
+   hidden class last, yet Griffe's MRO of Z orders B before Q (CPython: Q before B) and attributes f0 to B. *)
+Theorem C07_hidden_refuted : exists t x c m m', ordered t /\
+  (forall d, d < List.length t -> last_only x (cbases (nth_cls t d)) = true) /\
+  cpython_mro t c = Ok m /\ griffe_full_mro (hide x t) c = Ok m' /\ m' <> drop x m /\
+  first_definer t m "f0" = Some 4 /\ first_definer (hide x t) m' "f0" = Some 1.
+Proof. exact hidden_refuted. Qed.
+Print Assumptions C07_hidden_refuted.
+
+(* For every Python-expressible hierarchy and every root class x the collection does not hold: if x is written last
+   in the bases lists (classes up to c) and is last in every linearisation below c, Griffe's MRO on the collection
+   without x is CPython's MRO with x erased -- same order, uncomputable exactly when CPython raises. *)
+Theorem C07_hidden_last_only : forall t x, ordered t -> cbases (nth_cls t x) = [] ->
+  forall c, c < List.length t -> c <> x ->
+  (forall d, d <= c -> last_only x (cbases (nth_cls t d)) = true) ->
+  (forall d m, d < c -> cpython_mro t d = Ok m -> last_only x m = true) ->
+  griffe_full_mro (hide x t) c = map_ok (drop x) (cpython_mro t c).
+Proof. exact hidden_last_only. Qed.
+Print Assumptions C07_hidden_last_only.
+
+(* The same with the decidable gap predicate that the check evaluates. *)
+Theorem C07_hidden_modulo_known : forall t x c, ordered t -> cbases (nth_cls t x) = [] -> c < List.length t -> c <> x ->
+  ext_not_last t x c = false ->
+  griffe_full_mro (hide x t) c = map_ok (drop x) (cpython_mro t c).
+Proof. exact hidden_modulo_known. Qed.
+Print Assumptions C07_hidden_modulo_known.
+
+(* The spec used for generated programs (external root classes, `object` possibly written among the bases) is
+   conservative: on a table that never writes `object` it is the elided spec followed by object. *)
+Theorem C07_mro_ext_conservative : forall t c, ordered t -> c < List.length t ->
+  cpython_mro_ext t c = add_obj (List.length t) (cpython_mro t c).
+Proof. exact cpython_mro_ext_eq. Qed.
+Print Assumptions C07_mro_ext_conservative.
+
+(* Aliases as members: where an inherited alias finally leads is the owner's own member, or -- when that member is an
+   import inside the class body -- the object at the end of its alias chain in the collection; never an alias. *)
+Theorem C07_inherited_final_is_object : forall g owner n q k, member_final g owner n = Found q k ->
+  (forall t, k <> KAlias t) /\
+  (lookup n (xmalias (nth owner (pclasses g) (mkX [] [] [] [] []))) = None ->
+   q = xpath (nth owner (pclasses g) (mkX [] [] [] [] [])) ++ [n]) /\
+  (forall tgt, lookup n (xmalias (nth owner (pclasses g) (mkX [] [] [] [] []))) = Some tgt ->
+   lookup_path false (pheap g) tgt = Found q k /\ find_obj (pheap g) q = Some k).
+Proof. exact inherited_final_object. Qed.
+Print Assumptions C07_inherited_final_is_object.
